@@ -6,8 +6,8 @@ PACKAGES = {
     "config": {"dir": "internal/config", "name": "config", "libs": ["ipset.go"]},
     "controllers": {"dir": "internal/k8s/controllers", "name": "controllers", "libs": []},
     "native": {"dir": "internal/bgp/native", "name": "native", "libs": ["rfc4271.go"]},
-    "allocator": {"dir": "internal/allocator", "name": "allocator", "libs": ["ipset.go", "allocmodel.go"]},
-    "controller": {"dir": "controller", "name": "main", "libs": ["ipset.go", "allocmodel.go"], "hook_deps": ["allocator"]},
+    "allocator": {"dir": "internal/allocator", "name": "allocator", "libs": ["ipset.go", "allocmodel.go", "allocchecks.go", "allocgen.go"]},
+    "controller": {"dir": "controller", "name": "main", "libs": ["ipset.go", "allocmodel.go", "allocchecks.go", "allocgen.go", "boxkernel.go"], "hook_deps": ["allocator"]},
     "speaker": {"dir": "speaker", "name": "main", "libs": ["ipset.go"], "hook_deps": ["layer2"]},
     "layer2": {"dir": "internal/layer2", "name": "layer2", "libs": []},
     "frr": {"dir": "internal/bgp/frr", "name": "frr", "libs": ["frrinterp.go"]},
